@@ -289,6 +289,18 @@ class StartOrderMonitor(Monitor):
             for peer in w.instances:
                 if not peer.alive or peer.truth().get(q['namespec']) not in (STARTING, BACKOFF):
                     continue
+                # not the copy that a live job of ANOTHER instance is starting (two users starting the application on two
+                # instances): the emitter is bound by its own attempts and by what nobody drives any more (aborted jobs)
+                concurrent = False
+                for ykey, recs in self.pending.items():
+                    yrec = recs.get(q['namespec'])
+                    if yrec is None or ykey == key or yrec['target'] != (peer.idx, peer.incarnation):
+                        continue
+                    yinst = w.instances[ykey[0]]
+                    if yinst.alive and yinst.incarnation == ykey[1] and self.left_working.get(ykey, -1) < yrec['time']:
+                        concurrent = True
+                if concurrent:
+                    continue
                 info = pv.info_map.get(peer.identifier)
                 status = inst.supvisors.context.instances.get(peer.identifier)
                 if info is not None and int(info.get('state', 0)) in (STARTING, BACKOFF) and status is not None \
